@@ -100,6 +100,11 @@ example : Safe (run (fun _ _ => []) {} [.conn, .cycle, .send 1 "a~b~".toList, .c
 
 /-! ### one buffered command per user per cycle -/
 
+theorem cmdCount_ite_zero (u : Nat) (c : Prop) [Decidable c] (a b : List Ev) (ha : cmdCount u a = 0)
+    (hb : cmdCount u b = 0) : cmdCount u (if c then a else b) = 0 := by
+  split <;> assumption
+
+
 /-- **at_most_one_per_user_per_cycle** (clause `twice`): among the events of one backend cycle there is at most one
     buffered command of any user - for every table layout, cursor position, queue depth, script oracle (users
     vanishing, mode switches, command() calls inside the cycle) and loop bound. -/
@@ -109,21 +114,13 @@ theorem at_most_one_per_user_per_cycle (sc : Scripts) (w : World) (hs : Safe w) 
   dsimp only
   have h1 : Safe { w with cycle := w.cycle + 1, users := grantAll w.users w.slots } := ⟨hs.1, hs.2⟩
   have h2 := processIO_safe _ h1
-  have h3 := (cmdLoop_spec sc (connectedUsers w + 1) _ h2).2.2.1 u
+  have h3 := (cmdLoop_spec sc (NV.Gen.C12.loopCalls (connectedUsers w) w.maxUsers) _ h2).2.2.1 u
   have hio : cmdCount u (processIO { w with cycle := w.cycle + 1, users := grantAll w.users w.slots }).2 = 0 := by
     unfold processIO; dsimp only; split <;> simp [cmdCount, Ev.isCmdOf]
   simp only [cmdCount_append, hio]
-  have htail : cmdCount u (if (cmdLoop sc (connectedUsers w + 1)
-      (processIO { w with cycle := w.cycle + 1, users := grantAll w.users w.slots }).1).1.crashed = true
-      then [Ev.crash "all_users[s_next_user] out of range"]
-      else [Ev.endc (w.cycle + 1) (cmdLoop sc (connectedUsers w + 1)
-        (processIO { w with cycle := w.cycle + 1, users := grantAll w.users w.slots }).1).1.maxUsers
-        (layout (cmdLoop sc (connectedUsers w + 1)
-        (processIO { w with cycle := w.cycle + 1, users := grantAll w.users w.slots }).1).1)]) = 0 := by
-    split <;> simp [cmdCount, Ev.isCmdOf]
   have hhead : cmdCount u [Ev.begin (w.cycle + 1), Ev.poll (w.cycle + 1) (!hasPending w)] = 0 := by
     simp [cmdCount, Ev.isCmdOf]
-  rw [hhead, htail]
+  rw [hhead, cmdCount_ite_zero u _ _ _ (by simp [cmdCount, Ev.isCmdOf]) (by simp [cmdCount, Ev.isCmdOf])]
   have : (if turnOf (processIO { w with cycle := w.cycle + 1, users := grantAll w.users w.slots }).1 u = true then 1 else 0) ≤ 1 := by
     split <;> omega
   omega
@@ -255,7 +252,7 @@ theorem turns_at_most_connected_users (w : World) : turnCount (cmdPhaseStart w) 
   exact turnCount_le_connected { w with cycle := w.cycle + 1, users := grantAll w.users w.slots }
 
 theorem cycleStep_world (sc : Scripts) (w : World) :
-    (cycleStep sc w).1 = (cmdLoop sc (connectedUsers w + 1) (cmdPhaseStart w)).1 := rfl
+    (cycleStep sc w).1 = (cmdLoop sc (NV.Gen.C12.loopCalls (connectedUsers w) w.maxUsers) (cmdPhaseStart w)).1 := rfl
 
 /-- **loop_bound_sufficient**: the bound `i < connected_users` (which allows `connected_users + 1` calls of
     process_user_command) never cuts off an eligible user: when a backend cycle ends, nobody in the table holds a turn
@@ -265,10 +262,10 @@ theorem loop_bound_sufficient (sc : Scripts) (w : World) (hs : Safe w) : ∀ u, 
   rw [cycleStep_world]
   have h1 : Safe (cmdPhaseStart w) := processIO_safe _ ⟨hs.1, hs.2⟩
   have h2 := turns_at_most_connected_users w
-  exact cmdLoop_complete sc _ _ h1 (by omega)
+  exact cmdLoop_complete sc _ _ h1 (by simp only [loopCalls_spec]; omega)
 
 theorem cycleStep_cmdCount (sc : Scripts) (w : World) (u : Nat) :
-    cmdCount u (cycleStep sc w).2 = cmdCount u (cmdLoop sc (connectedUsers w + 1) (cmdPhaseStart w)).2 := by
+    cmdCount u (cycleStep sc w).2 = cmdCount u (cmdLoop sc (NV.Gen.C12.loopCalls (connectedUsers w) w.maxUsers) (cmdPhaseStart w)).2 := by
   unfold cycleStep cmdPhaseStart
   dsimp only
   have hio : cmdCount u (processIO { w with cycle := w.cycle + 1, users := grantAll w.users w.slots }).2 = 0 := by
@@ -277,9 +274,7 @@ theorem cycleStep_cmdCount (sc : Scripts) (w : World) (u : Nat) :
   have hhead : cmdCount u [Ev.begin (w.cycle + 1), Ev.poll (w.cycle + 1) (!hasPending w)] = 0 := by
     simp [cmdCount, Ev.isCmdOf]
   rw [hhead]
-  have htail : ∀ (c : Bool) (a b : List Ev), cmdCount u a = 0 → cmdCount u b = 0 → cmdCount u (if c = true then a else b) = 0 := by
-    intro c a b ha hb; split <;> assumption
-  rw [htail _ _ _ (by simp [cmdCount, Ev.isCmdOf]) (by simp [cmdCount, Ev.isCmdOf])]
+  rw [cmdCount_ite_zero u _ _ _ (by simp [cmdCount, Ev.isCmdOf]) (by simp [cmdCount, Ev.isCmdOf])]
   omega
 
 /-- **no_starvation** (clause `starved`): a user that sits in the table holding a turn and a complete flagged command
@@ -291,7 +286,7 @@ theorem no_starvation (sc : Scripts) (w : World) (hs : Safe w) (u : Nat) (he : e
   rw [cycleStep_cmdCount, cycleStep_world]
   have h1 : Safe (cmdPhaseStart w) := processIO_safe _ ⟨hs.1, hs.2⟩
   have h2 := turns_at_most_connected_users w
-  exact cmdLoop_serves sc _ _ h1 (by omega) u he
+  exact cmdLoop_serves sc _ _ h1 (by simp only [loopCalls_spec]; omega) u he
 
 -- non-vacuity: three users in a sparse table (slot 2 freed), deep queue for user 1, one line for user 3: both are
 -- eligible when the command phase starts and both are served
